@@ -101,3 +101,27 @@ def param_atom(fn, i):
     while p.get("k") in ("ref", "deref"):
         p = p["p"]
     return e1.Rat.atom(p["name"])
+
+
+def scrut_names(crate, m):
+    """Name the components of a `match (&mut a.data, &b.data, &mut self.f[i][j][k].data)` scrutinee.
+
+    -> list of dict(name, node, index) ; name is the root place with indices removed (`values`, `self.velocity`)."""
+    s = strip(m["scrut"])
+    comps = s["xs"] if s.get("k") == "tup" else [s]
+    out = []
+    for comp in comps:
+        n = strip(comp)
+        if n.get("k") == "field" and n["f"] == "data":
+            n = strip(n["b"])
+        idx = []
+        while n.get("k") == "index":
+            idx.append(n["i"])
+            n = strip(n["b"])
+        idx.reverse()
+        try:
+            name = e1.Norm(crate).place_name(n)
+        except ValueError:
+            name = pretty(n)
+        out.append(dict(name=name, node=n, index=idx))
+    return out
